@@ -5,6 +5,11 @@ NOT_APPLICABLE = {}
 _PBT = "property-based testing with pgregory.net/rapid (sharded, shrunk replay files)"
 
 TEXT = {
+    "C02": dict(
+        technique=_PBT + " with pluggable toy curves and injected curve faults; oracle = own SLIP-0010 model (validated on all official vectors) with the same validity predicate; call-budget instead of timeouts",
+        level="Generated (seed, curve, path) triples on the three real curves and on harness toy curves that reject 50% / 87.5% of candidates (so the master and child retry loops iterate in most cases) are compared at every path prefix with an independent SLIP-0010 model: private key, chain code, serialized public key, fingerprint, path API = step-wise, public-side derivation from a drawn step on. Undefined derivations must fail; injected permanent curve errors must be returned after exactly the expected number of curve calls. Exploration.",
+        note="Trusted: harness/ref/slip10 + ref/secp + crypto/ed25519, crypto/hmac, sha512, ripemd160. Real-curve retries (probability 2^-127) are reached only through the toy curves, which exercise the same DeriveChild/NewMasterKey code.",
+    ),
     "C03": dict(
         technique=_PBT + " + complete enumeration of both word lists + native fuzzing; oracle = independent bit-string BIP-39 codec over pinned official word lists (two-sided accept/reject, round trips)",
         level="Generated entropies of every size (weighted to leading/trailing zero bytes, all-zero, single bits) and generated/mutated word sequences are judged by an independent bit-string reference in both directions; all 2x2048 word indices are enumerated completely against the pinned lists. Exploration: sampled over 2^128..2^512 entropies, complete only over sizes, indices and error kinds.",
@@ -24,6 +29,11 @@ TEXT = {
         technique=_PBT + " + complete enumeration of message lengths 0..300; differential oracle = crypto/ed25519 byte for byte",
         level="Differential testing against the standard library on generated seeds and messages (lengths weighted to every SHA-512 padding regime), plus crypto.Signer and GenerateKey behaviour. Sampled over seeds; complete over message lengths 0..300.",
         note="Trusted: crypto/ed25519 as the RFC 8032 implementation.",
+    ),
+    "C08": dict(
+        technique=_PBT + " + complete corner grid; oracle = metamorphic (private-side vs public-side derivation must commute) + affine big-integer reference as third opinion",
+        level="Generated parents and non-hardened indices: Public() of the private child must equal the child of the public parent (key, chain code, fingerprint). Shift level: generated scalars x shifts with all corner relations (0, k, n-k, n-k+-1, n, n+1, 2^256-1) enumerated completely on a grid and sampled randomly: both sides invalid or both valid and equal, no panic, equal to (k+b mod n)G.",
+        note="Trusted: harness/ref/secp for the third opinion; the commutation check itself needs no reference.",
     ),
     "C09": dict(
         technique=_PBT + " + complete enumeration of the 25 White_Space separators; oracle = own PBKDF2-HMAC-SHA512 and a hand-made NFKD table cross-checked with x/text; metamorphic passphrase equivalence; parser idempotence",
@@ -49,6 +59,11 @@ TEXT = {
         technique="exhaustive black-box syndrome enumeration (3 766 036 syndromes measured through the real Encode) + " + _PBT + " + complete weight<=2 enumeration per sampled code word; oracle = Decode must reject",
         level="The checksum's distance is settled completely at the syndrome level for every error pattern of weight <= 4 in the 89-symbol window (finite, enumerated), using only checksum differences observed through Encode plus checked linearity; the end-to-end half (Decode rejects) is sampled for weights 3-4 and enumerated completely for weights 1-2 on sampled code words.",
         note="Assumes Decode rejects exactly the non-zero syndromes (checked by C04/C05 and sampled here). Trusted: harness/ref/bech32 for building valid strings.",
+    ),
+    "C17": dict(
+        technique=_PBT + " + complete corner grid; oracle = affine reference curve with explicit case analysis + algebraic group laws (commutativity, associativity, distributivity, k = k mod n)",
+        level="Points are generated by their discrete log so that equal / opposite / identity pairs and corner scalars (0, n, n+1, 2n, 2^256-1, leading zeros, over-long) are reached on purpose; every operation of both copies of the curve is compared with an independent affine implementation, identity as (0,0), panics are failures; all 144 corner pairs and all corner scalars enumerated completely. IsOnCurve on roots, negated roots, neighbours, (0,0).",
+        note="Trusted: harness/ref/secp (math/big affine arithmetic, self-checked). Coordinates outside [0,p) are outside the statement and not generated.",
     ),
     "C19": dict(
         technique=_PBT + " + complete single-tryte substitution sweep per sampled address + native fuzzing; oracle = BIP-173 reference + (prefix, version, length) table + own migration codec (two-sided)",
